@@ -8,6 +8,7 @@ import (
 	"time"
 
 	"github.com/ipfs/go-graphsync"
+	"github.com/ipld/go-ipld-prime/node/basicnode"
 
 	datatransfer "github.com/filecoin-project/go-data-transfer/v2"
 	"github.com/filecoin-project/go-data-transfer/v2/message"
@@ -678,5 +679,62 @@ func (nr *netRun) checkC14() {
 				r.Failf("C14", "persistent-failure-not-closed", "netsim|"+datatransfer.Statuses[s.Status], "node %s monitors channel #%d; after a transport error every restart message failed to send for 5 simulated minutes, yet the channel was never closed with an error (status %s after settle)", n.Name, x.idx, datatransfer.Statuses[s.Status])
 			}
 		}
+	}
+}
+
+// checkC04NotAccepted: a new request that no validator accepted creates no channel, opens no transport channel and is
+// answered "not accepted"; the node does not crash (panics are reported by the generic oracle).
+func (nr *netRun) checkC04NotAccepted(x *xfer) {
+	r := nr.r
+	b := nr.B
+	if x.chid.ID == 0 {
+		return
+	}
+	got := false
+	for _, w := range b.Wire {
+		if w.Dir == "recv" && w.Sum.Req && w.Sum.New && w.Sum.TID == x.chid.ID {
+			got = true
+		}
+	}
+	if !got {
+		return
+	}
+	why := "validator rejected"
+	switch {
+	case x.raw:
+		why = "request without " + strings.TrimPrefix(x.rawKind, "no-")
+	case x.voucher.Type == "TX":
+		why = "voucher type not registered"
+	case x.newOutcome == 2:
+		why = "validator returned an error"
+	}
+	r.Probe("not-accepted-request:" + why)
+	if _, ok := b.State(x.chid); ok {
+		r.Failf("C04", "channel-created-without-acceptance", why, "responder created channel state for request #%d although the %s", x.idx, why)
+	}
+	for _, g := range b.AllGSCalls {
+		if g.Kind == "request" {
+			if m := dtOf(g.Exts); m != nil && m.TransferID() == x.chid.ID {
+				r.Failf("C04", "transport-opened-without-acceptance", why, "responder opened a transport channel (graphsync request) for request #%d although the %s", x.idx, why)
+			}
+		}
+	}
+	replied, acceptedReply := false, false
+	for _, w := range b.Wire {
+		if (w.Dir == "send" || (w.Dir == "sent" && w.Carrier == "graphsync")) && !w.Sum.Req && w.Sum.TID == x.chid.ID && w.Sum.New {
+			replied = true
+			if w.Sum.Accepted {
+				acceptedReply = true
+			}
+			if x.newOutcome == 1 && x.rejectResult && w.Sum.VEnc != encNode(basicnode.NewString(fmt.Sprintf("vr-reject-%d", x.idx))) {
+				r.Failf("C04", "reply-voucher-result", "rejection", "the rejection of request #%d does not carry the validator's voucher result", x.idx)
+			}
+		}
+	}
+	if acceptedReply {
+		r.Failf("C04", "accepted-without-validation", why, "responder answered Accepted for request #%d although the %s", x.idx, why)
+	}
+	if !replied && len(r.Faults) == 0 {
+		r.Failf("C04", "no-reply-to-refused-request", why, "responder never answered request #%d (%s)", x.idx, why)
 	}
 }
